@@ -507,7 +507,7 @@ def c09(H):
         if o["op"][0] == "get" and o["outcome"] and o["outcome"][0] == "raise":
             v.append({"kind": "factory_call_raised", "detail": f"get_reusable_executor({o['op'][1]}) raised {o['outcome'][1]['type']}: "
                       f"{o['outcome'][1]['str'][:200]}", "where": o["outcome"][1]["type"]})
-    single = len([ops for ops in H.case["program"] if any(op[0] != "sleep" and op[0] != "open_gate" for op in ops)]) == 1 \
+    single = len([ops for ops in H.case["program"] if any(op[0] not in ("sleep", "open_gate", "kill") for op in ops)]) == 1 \
         and not any(op[0] == "callback" and op[2] == "get_changed" for ops in H.case["program"] for op in ops)
     created = None      # (timeout, init) the current instance was created with (sequential model)
     max_id = -1
@@ -613,6 +613,8 @@ def c10(H):
         return v
     for o in H.ops:
         if o["op"][0] == "get" and o["outcome"] and o["outcome"][0] == "raise":
+            if o["op"][1].get("warn_error") and o["outcome"][1]["type"] == "UserWarning":
+                continue      # the caller turned warnings into errors: the "running jobs" warning aborts that request
             v.append({"kind": "factory_call_raised", "detail": f"get_reusable_executor({o['op'][1]}) raised {o['outcome'][1]['type']}: "
                       f"{o['outcome'][1]['str'][:200]}", "where": o["outcome"][1]["type"]})
     faults = any(p["death"] for p in H.procs)
@@ -624,7 +626,7 @@ def c10(H):
                 ok, why = own_outcome(tok, f)
                 if not ok:
                     v.append({"kind": "wrong_outcome", "detail": f"future {tok}: {why}", "where": f["spec"]["kind"]})
-    single = len([ops for ops in H.case["program"] if any(op[0] not in ("sleep", "open_gate") for op in ops)]) == 1
+    single = len([ops for ops in H.case["program"] if any(op[0] not in ("sleep", "open_gate", "kill") for op in ops)]) == 1
     for g in H.get_log:
         if not g["same"] or g["prev_max_workers"] is None:
             continue
@@ -641,7 +643,8 @@ def c10(H):
             # meanwhile" cannot be established from outside, so the survivor clause is only checked for timeout None / >= 10 s
             continue
         new = g["requested"]
-        if new == g["prev_max_workers"]:
+        prev_size = g.get("prev_user_size") if g.get("prev_user_size") is not None else g["prev_max_workers"]
+        if new == prev_size:
             continue          # the statement is about a *different* max_workers (an equal one is a no-op)
         fired = {}
         for st_, kind, data in H.events:
@@ -652,11 +655,11 @@ def c10(H):
         if own:
             continue          # a worker whose idle timer had fired (possibly just before the call) left during the call
         if len(g["pids_after"]) != new:
-            v.append({"kind": "wrong_number_of_live_workers", "detail": f"resize {g['prev_max_workers']}->{new} returned with live "
+            v.append({"kind": "wrong_number_of_live_workers", "detail": f"resize {prev_size}->{new} returned with live "
                       f"workers {g['pids_after']} (no worker timed out or died meanwhile)", "where": "count"})
         kept = set(g["pids_before"]) & set(g["pids_after"])
         want = min(len(g["pids_before"]), new)
         if len(kept) != want:
-            v.append({"kind": "survivors_restarted", "detail": f"resize {g['prev_max_workers']}->{new}: workers before {g['pids_before']}, "
+            v.append({"kind": "survivors_restarted", "detail": f"resize {prev_size}->{new}: workers before {g['pids_before']}, "
                       f"after {g['pids_after']}: {len(kept)} kept, expected {want}", "where": "survivors"})
     return v
